@@ -8,12 +8,15 @@ def render(case, c):
     extra = " + crate::Marker" if p.get("bounds", 1) == 2 else ""
     fnkw = "async fn" if is_async else "fn"
     aw = ".await" if is_async else ""
-    workbody = "let v: Vec<u64> = Vec::with_capacity(x as usize + 1); (v.capacity() as u64) + x" if work else "x + 1"
+    BIG = "let buf = [1u8; 4096]; ::vt::yield_once().await; "
+    workbody = {0: "x + 1", 1: "let v: Vec<u64> = Vec::with_capacity(x as usize + 1); (v.capacity() as u64) + x",
+                2: BIG + "(buf[(x as usize) % 4096] as u64) + x"}[work]
     RT = "u64"
     if p.get("ret", "value") == "ref":
         RT = "&'static str"
-        workbody = ('let v: Vec<u64> = Vec::with_capacity(x as usize + 1); if v.capacity() > x as usize { "w" } else { "z" }' if work
-                    else 'if x > 2 { "a" } else { "b" }')
+        workbody = {0: 'if x > 2 { "a" } else { "b" }',
+                    1: 'let v: Vec<u64> = Vec::with_capacity(x as usize + 1); if v.capacity() > x as usize { "w" } else { "z" }',
+                    2: BIG + 'if buf[(x as usize) % 4096] > 0 { "w" } else { "z" }'}[work]
     items = []
     direct = trait = ""
     if kind in ("fn", "mod"):
